@@ -8,6 +8,8 @@ Case (integers; <str> = len bytes), mirrored by coq/C14/Model.v run_ops and harn
   7 <key> short allow entry          the name resolved by a real PARSER (DefaultContext::getOption): entry % 4 = 0 parseCommandLine, 1 parseCommandArray,
                                      2 parseCommandString, 3 parseCfgFile; token "--key=1" / "-c1" / line "key = 1"; allow = allowUnregistered
   8 n (<key> short)^n allow entry    n names resolved within ONE run of a real parser (one DefaultContext): token j = "--key=j" / "-cj" / line "key = j"
+  9 k                                add(group "N" of k GENERATED options 'o' + four base-36 digits of 0..k-1); k cut to 70000 on a context without options and
+                                     keys, to 300 otherwise; contexts of more than 4096 options are dumped in short (size, groups (caption, size), number of keys)
 The oracle is independent of the Coq model: it keeps the plain LIST OF OPTIONS (name, alias, extra alias names) that the
 calls were meant to build, computes the set of matching options by brute force over that list (no index, no order) and
 judges every observation of the implementation, including which additions must be refused and the final index dump.
@@ -82,6 +84,9 @@ def decode(c):
                     p += 1
                 ops.append((8, toks, c[p], c[p + 1]))
                 p += 2
+            elif o == 9:
+                ops.append((9, c[p]))
+                p += 1
             else:
                 break
     except IndexError:
@@ -122,7 +127,22 @@ def encode(ops):
             for k, sh in o[1]:
                 e += _estr(k) + [sh]
             e += [o[2], o[3]]
+        elif o[0] == 9:
+            e += [9, o[1]]
     return e
+
+
+B36 = '0123456789abcdefghijklmnopqrstuvwxyz'
+BULK_MAX, BULK_SMALL, DUMP_FULL = 70000, 300, 4096
+
+
+def gen_name(j):
+    """name of the j-th generated option of op 9: 'o' + the four base-36 digits of j"""
+    d = []
+    for _ in range(4):
+        d.append(ord(B36[j % 36]))
+        j //= 36
+    return [111] + d[::-1]
 
 
 def _s(b):
@@ -155,6 +175,9 @@ def describe(c):
             else:
                 body = ' '.join(('-%s%d' if sh else '--%s=%d') % (_s(k), j + 1) for j, (k, sh) in enumerate(o[1]))
             out.append('%s("%s", allowUnregistered=%s)' % (ENTRY[e], body, 'true' if o[2] else 'false'))
+        elif o[0] == 9:
+            k = max(0, min(o[1], BULK_MAX))
+            out.append("add(group 'N': %d generated options %s)" % (o[1], ' .. '.join(_s(gen_name(j)) for j in sorted(set([0, max(k - 1, 0)])))))
     return ' '.join(out)
 
 
@@ -175,12 +198,11 @@ class Ref:
     def __init__(self):
         self.opts = []       # [name, alias, [extra names]]
         self.groups = []     # [caption, [option ids]]
+        self.keys = set()    # every name, alias name and "-c" key given to an accepted option (what `taken` would find by going through self.opts)
+        self.dom = {}
 
     def taken(self, key):
-        for nm, a, ex in self.opts:
-            if key == nm or key in ex or (a and key == [DASH, a]):
-                return True
-        return False
+        return tuple(key) in self.keys
 
     def add_group(self, cap, os_):
         """returns None or the refused option's name"""
@@ -197,6 +219,10 @@ class Ref:
                 return nm
             g[1].append(len(self.opts))
             self.opts.append([nm, a, []])
+            self.keys.add(tuple(nm))
+            if a:
+                self.keys.add((DASH, a))
+            self.dom = {}
         return None
 
     def add_alias(self, nm, i):
@@ -205,6 +231,8 @@ class Ref:
         if self.taken(nm):
             return nm
         self.opts[i][2].append(nm)
+        self.keys.add(tuple(nm))
+        self.dom = {}
         return None
 
     def names(self, i):
@@ -226,6 +254,11 @@ class Ref:
         return None
 
     def in_domain(self, hi=126):
+        if hi not in self.dom:
+            self.dom[hi] = self._in_domain(hi)
+        return self.dom[hi]
+
+    def _in_domain(self, hi):
         for nm, a, ex in self.opts:
             for x in [nm] + ex:
                 if not x or x[0] == DASH or any(b < 1 or b > hi for b in x):
@@ -348,8 +381,11 @@ def oracle(c, obs):
     sig = []
     try:
         for o in ops:
-            if o[0] in (1, 2, 3):
-                if o[0] == 1:
+            if o[0] in (1, 2, 3, 9):
+                if o[0] == 9:
+                    k = max(0, min(o[1], BULK_MAX if not ref.opts and not ref.keys else BULK_SMALL))
+                    exp = ref.add_group([78], [(gen_name(j), 0) for j in range(k)])
+                elif o[0] == 1:
                     exp = ref.add_group(o[1][0], o[1][1])
                 elif o[0] == 2:
                     exp = ref.add_alias(o[1], o[2])
@@ -475,6 +511,18 @@ def oracle(c, obs):
             # final dump: size, groups, index
             size, ng = rd.num(), rd.num()
             groups = []
+            if size > DUMP_FULL:
+                for _ in range(ng):
+                    cap = rd.str()
+                    groups.append((cap, rd.num()))
+                nkeys = rd.num()
+                if size != len(ref.opts):
+                    sig.append('option-count-differs')
+                elif groups != [(cap, len(ids)) for cap, ids in ref.groups]:
+                    sig.append('groups-differ')
+                elif nkeys != len(ref.keys - {()}):
+                    sig.append('index-is-not-the-set-of-keys-of-the-accepted-options')
+                return sig
             for _ in range(ng):
                 cap = rd.str()
                 groups.append((cap, [rd.str() for _ in range(rd.num())]))
@@ -499,7 +547,7 @@ def oracle(c, obs):
 
 def nontrivial(c, obs):
     ops = decode(c)
-    n = sum(len(o[1][1]) for o in ops if o[0] == 1) + sum(len(g[1]) for o in ops if o[0] == 3 for g in o[1])
+    n = sum(len(o[1][1]) for o in ops if o[0] == 1) + sum(len(g[1]) for o in ops if o[0] == 3 for g in o[1]) + sum(max(0, o[1]) for o in ops if o[0] == 9)
     return n >= 2 and any(o[0] in (4, 5, 6, 7, 8) for o in ops)
 
 
@@ -764,10 +812,84 @@ def fixed_cases():
     return out
 
 
+def many_options_fixed():
+    """Contexts of more than 65536 options (op 9): the option NUMBER an index entry stores must stay exact (seeded C14-r15: key_type narrowed to unsigned short,
+    option #n >= 65536 indexed as #(n mod 65536)).  Names with index below / at / above 65535, 65536, 65537; ordinary options and alias names added behind the
+    generated ones that share a prefix with option #(n - 65536); the parsers; a control below the boundary; the small / refused forms of op 9."""
+    N = gen_name
+    out = []
+    a = [(9, 65537)] + [(4, N(j), FIND_NAME) for j in (0, 1, 65534, 65535, 65536)] + [
+        (5, N(65536), FIND_NOP), (6, N(65536), FIND_PREFIX, 0), (6, N(65535), FIND_NAME, 3), (4, N(65536)[:4], FIND_PREFIX), (5, N(65536)[:4], FIND_PREFIX),
+        (7, N(65536), 0, 0, 2), (7, N(65536), 0, 1, 3), (4, N(65537), FIND_NAME), (5, S('o1ekh'), FIND_NOP)]
+    out.append(a)
+    b = [(9, 65536), (1, (S('G'), [(S('o0000x'), 0), (S('o0001y'), ord('q')), (S('late'), 0)])),
+         (4, S('o0000'), FIND_PREFIX), (5, S('o0000'), FIND_PREFIX), (6, S('o0000'), FIND_PREFIX, 0), (4, S('o0000x'), FIND_NAME), (4, S('q'), FIND_ALIAS),
+         (4, S('o0001'), FIND_NOP), (4, S('o0001'), FIND_PREFIX), (4, S('o0001y'), FIND_NOP), (5, S('lat'), FIND_PREFIX), (7, S('o0000x'), 0, 1, 0), (7, S('q'), 1, 0, 1),
+         (7, S('o0001'), 0, 1, 2), (8, [(S('o0000x'), 0), (S('q'), 1), (S('late'), 0)], 0, 2), (5, S('-q'), FIND_ALIAS)]
+    out.append(b)
+    c = [(9, 66000), (2, S('zeta'), 65999), (2, S('o1ekgq'), 65536), (2, S('yps'), 464), (2, S('o00cvx'), 65999),
+         (4, S('zeta'), FIND_NAME), (4, S('ze'), FIND_PREFIX), (5, S('o1ekg'), FIND_PREFIX), (4, S('yps'), FIND_NOP), (4, S('o00cv'), FIND_PREFIX), (5, S('o00cv'), FIND_PREFIX),
+         (6, S('o00cv'), FIND_PREFIX, 1), (4, S('o00cv'), FIND_NOP), (7, S('o00cvx'), 0, 0, 1), (7, S('zet'), 0, 1, 3), (2, S('zeta'), 3), (4, N(65999), FIND_NAME)]
+    out.append(c)
+    d = [(9, 65535), (1, (S('G'), [(S('aa'), 0), (S('ab'), 0), (S('ac'), ord('c'))])), (3, [(S('H'), [(S('ad'), 0)])]),
+         (4, S('aa'), FIND_NAME), (4, S('ab'), FIND_NAME), (4, S('ac'), FIND_NAME), (4, S('ad'), FIND_NAME), (4, S('a'), FIND_PREFIX), (4, S('c'), FIND_ALIAS),
+         (5, S('ab'), FIND_NOP), (6, S('a'), FIND_PREFIX, 0), (7, S('ab'), 0, 0, 0), (7, S('c'), 1, 0, 2), (4, N(65534), FIND_NOP), (4, N(65535), FIND_NOP)]
+    out.append(d)
+    e = [(9, 65000), (1, (S('G'), [(S('o0000x'), 0)])), (4, S('o0000'), FIND_PREFIX), (5, S('o0000x'), FIND_NAME), (4, N(64999), FIND_NAME), (4, N(65000), FIND_NAME),
+         (6, S('o0000'), FIND_PREFIX, 0)]
+    out.append(e)
+    res = [(encode(x), {'kind': 'many-options'}) for x in out]
+    # small and refused forms of op 9 (the generic insertion of the model: context not empty; second group refused at its first name)
+    small = [[(9, 5), (9, 400), (4, N(3), FIND_NAME), (4, S('o000'), FIND_PREFIX)],
+             [(1, (S('G'), [(S('x'), 0)])), (9, 400), (4, N(299), FIND_NAME), (4, N(300), FIND_NAME), (5, S('o008'), FIND_PREFIX), (9, 2)],
+             [(1, (S('N'), [(S('o0002'), 0)])), (9, 7), (4, N(1), FIND_NAME), (4, N(2), FIND_NAME)],
+             [(9, 0), (9, -3), (9, 40), (2, S('o000'), 39), (4, S('o000'), FIND_NOP), (4, S('o000'), FIND_PREFIX), (4, N(36), FIND_NAME)],
+             [(1, (S('N'), [])), (1, (S('M'), [])), (9, 3), (1, (S('N'), [(S('w'), 0)])), (4, S('w'), FIND_NAME)]]
+    res += [(encode(x), {'kind': 'generated-options-small'}) for x in small]
+    return res
+
+
+def many_options_random(rnd):
+    k = rnd.choice([65536, 65537, 65538, rnd.randint(65530, 65545), rnd.randint(65539, 66200)])
+    ops = [(9, k)]
+    late = list(range(65536, k))
+    near = [j for j in (0, 1, 65534, 65535, 65536, 65537, k - 2, k - 1, k) if j >= 0]
+    extra = []
+    for _ in range(rnd.randint(0, 3)):
+        j = rnd.choice([rnd.randrange(0, 700), rnd.randrange(0, max(1, k - 65536))])
+        nm = gen_name(j) + [rnd.choice([120, 121, 95])]
+        if nm not in extra:
+            extra.append(nm)
+    if extra:
+        ops.append((1, (S('G'), [(nm, 0) for nm in extra])))
+    al = []
+    for _ in range(rnd.randint(0, 2)):
+        i = rnd.choice(late) if late and rnd.random() < 0.7 else rnd.randrange(0, k)
+        nm = rnd.choice([gen_name(i - 65536) + [113] if i >= 65536 else gen_name(i) + [113], S('z') + gen_name(i)[1:]])
+        al.append(nm)
+        ops.append((2, nm, i))
+    keys = [gen_name(j) for j in near] + extra + al + [x[:5] for x in extra] + [x[:5] for x in al if x[0] == 111] + [gen_name(rnd.randrange(0, k)) for _ in range(2)]
+    rnd.shuffle(keys)
+    for key in keys[:rnd.randint(8, 14)]:
+        r = rnd.random()
+        t = rnd.choice([FIND_NAME, FIND_PREFIX, FIND_NOP])
+        if r < 0.45:
+            ops.append((4, key, t))
+        elif r < 0.65:
+            ops.append((5, key, t))
+        elif r < 0.8:
+            ops.append((6, key, t, rnd.choice([0, 1, 2, 3])))
+        else:
+            ops.append((7, key, 0, rnd.randint(0, 1), rnd.randint(0, 3)))
+    return encode(ops)
+
+
 def gen(seed, tier):
     rnd = random.Random(seed * 1000003 + 14)
     total = {'quick': 3000, 'thorough': 100000, 'search': 4000}.get(tier, 3000)
-    out = fixed_cases()
+    out = fixed_cases() + many_options_fixed()
+    for _ in range({'quick': 2, 'thorough': 10, 'search': 2}.get(tier, 2)):
+        out.append((many_options_random(rnd), {'kind': 'many-options'}))
     while len(out) < total:
         kind = rnd.choice(KINDS)
         out.append((gen_one(rnd, kind, rnd.choice([8, 30, 30])), {'kind': kind}))
@@ -829,20 +951,25 @@ RULE = ('cases = (a sequence of add(group) / addAlias / add(context) calls build
         'alias names sharing a prefix with their own option, names containing "-", program-like names (help / heuristic / he, opt / option / options) looked up '
         'through the parsers with ambiguous prefixes, prefixes of nothing, exact names that are prefixes of others and alias names, and (correspondence only) bytes >= 0x7f; keys = names, proper prefixes, '
         'extensions, neighbours in sort order, alias characters with and without "-"; non-trivial = at least two options declared and at least one lookup; '
+        'contexts of MORE THAN 65536 OPTIONS (op 9: a group of 65535..66200 generated options o0000, o0001, .. added at once, then ordinary options / alias names / merged contexts behind them): names with index '
+        '0, 1, 65534..65537, last; late options and alias names sharing a prefix with option #(n-65536); every lookup mode and the parsers; a control below the boundary; small and refused forms of op 9; '
         'distinct = distinct case tuples')
 TRUSTED_BASE = ['std::map<std::string,size_t> (ordering, insert, erase, lower_bound, upper_bound) modelled as a strictly sorted association list with linear-scan bounds',
                 'props/C14.py reference (brute force over the option list) as oracle on the implementation',
-                'tools/consts/C14.py anchors (FindType values, CHAR_MAX of the harness compiler, error-mask bits, shape of findImpl/insertOption)']
+                'tools/consts/C14.py anchors (FindType values, CHAR_MAX of the harness compiler, error-mask bits, shape of findImpl/insertOption, declared type of OptionContext::key_type and the integer limits of the harness compiler)']
 ASSUMPTIONS = ['option names and alias names: non-empty, bytes 1..126, not starting with "-"; alias characters in 1..126 and not "-" (bytes >= 0x7f after the key are '
                'outside the CHAR_MAX sentinel argument: correspondence only, not judged by the oracle)',
                'keys: non-empty; name lookups with keys not starting with "-"; alias lookups with keys "c" or "-c"',
                'alias names (addAlias) count as names of their option for exact AND prefix lookup',
-               'names without newline (the harness reads the candidates from the AmbiguousOption message)']
+               'names without newline (the harness reads the candidates from the AmbiguousOption message)',
+               'contexts of fewer than 2^32 options (every option is a heap object of more than 100 bytes incl. its index node: 2^32 of them are memory-exhaustion scale)']
 LEVEL_TEXT = ('Machine-checked proof (Coq): for every context reachable through add(group)/addAlias/add(context) (including refused calls) and every key in the claim, '
               'findImpl/find/tryFind/getOption of the model return exactly the unique matching option, Unknown iff no option matches, Ambiguous with exactly the matching '
               'options as candidates iff several do - an ambiguous key is ambiguous in every lookup mode and through every parser entry point, with allowUnregistered on and off; '
               'several names resolved within one parser run are resolved independently: the run returns, token by token, what the single lookups return (up to the first lookup that throws), '
               'each determined by the options that match its own key in its own lookup mode; '
+              'the option number stored in the index (key_type, range generated from the typedef) is exact and injective for every reachable context of at most key_max+1 options, and key_max >= 2^32-1 '
+              '(2^32 options are beyond memory-exhaustion scale); the closed form by which the model adds a group of up to 70000 generated options equals the generic add(group) for every count; '
               'the [lower_bound k, upper_bound k.0x7f) range is exactly the set of index entries with prefix k; additions are refused '
               'iff a key is taken and leave the index unchanged. Model tied to the code by differential correspondence incl. a dump of the private index and lookups through the four real parser entry points.')
 LEVEL_NOTE = ('Trusted: Coq kernel, extraction+driver (sample cross-checked by vm_compute), harness, translator; std::map modelled; names/keys over bytes 1..126.')
